@@ -2,7 +2,6 @@ package rate
 
 import (
 	"fmt"
-	"regexp"
 	"strconv"
 	"strings"
 	"time"
@@ -22,10 +21,11 @@ func ParseRate(rateArg string) (int, time.Duration, error) {
 			return rate, unit, fmt.Errorf("rate %s can't be negative", rateArg)
 		}
 		unitArg := (rateArg)[strings.Index(rateArg, "/")+1:]
-		if !isNumeric(unitArg[0:1]) {
-			unitArg = "1" + unitArg
-		}
 		unit, err = time.ParseDuration(unitArg)
+		if err != nil {
+			// a bare unit such as "s" or "ms" means one of it
+			unit, err = time.ParseDuration("1" + unitArg)
+		}
 		if err != nil {
 			return rate, unit, fmt.Errorf("unable to parse unit %s: %w", rateArg, err)
 		}
@@ -42,9 +42,4 @@ func ParseRate(rateArg string) (int, time.Duration, error) {
 	}
 
 	return rate, unit, nil
-}
-
-func isNumeric(value string) bool {
-	re := regexp.MustCompile("^[0-9]+$")
-	return re.MatchString(value)
 }
